@@ -97,6 +97,11 @@ def handleStateless (toks : List String) : String :=
     match n.toNat?, parseRat? tol, parseRats? rest with
     | some n, some tol, some ds => toString (phaseSteps tol n ds)
     | _, _, _ => err "format"
+  -- climbsel cp <E…> : the climbing images `relax(climbpoints=cp)` chooses on a string with image energies E
+  | "climbsel" :: cp :: rest =>
+    match cp.toNat?, parseRats? rest with
+    | some cp, some es => " ".intercalate ("sel" :: (climbIndices cp es).map toString)
+    | _, _ => err "format"
   | "pdef" :: n :: [] =>
     match n.toNat? with
     | some n => if n = 0 then err "value" else
